@@ -35,3 +35,37 @@ REG.contract('C04', N, 'NinjaRule.write.<locals>.rule_iter', params={'self': Rul
                       "len(__yield__) == (1 if self.refcount > 0 else 0) + (1 if self.rsprefcount > 0 else 0)"],
              yields=Str, floor=3,
              note='the flavours of a rule that are written are exactly the flavours that build statements refer to')
+
+# ---- what meson-test-prereq / meson-benchmark-prereq are made of: for every test, the target behind its program, behind every
+# argument and behind every depends: entry (one output of a custom target stands for that target).  Stated for one test with
+# at most one argument and one depends: entry (the loops are unrolled; the iterations are independent).
+from pyvc.api import TupleS
+BK = 'mesonbuild/backend/backends.py'
+TLIKE = lambda x: f"(isinst({x}, build.CustomTargetIndex) or isinst({x}, build.CustomTarget) or isinst({x}, build.BuildTarget))"
+TGT = lambda x: f"(attr_target({x}) if isinst({x}, build.CustomTargetIndex) else {x})"
+for na_, nd_ in ((0, 0), (1, 0), (0, 1), (1, 1)):
+    TestS = Struct('Test', 'mesonbuild.interpreter.interpreterobjects:Test', exe=Obj, cmd_args=TupleS(*([Obj] * na_)), depends=TupleS(*([Obj] * nd_)))
+    BuildS2 = Struct('Build', 'mesonbuild.build:Build', tests=TupleS(TestS), benchmarks=TupleS(TestS))
+    BackS = Struct('Backend', 'mesonbuild.backend.backends:Backend', build=BuildS2)
+    for bm_ in (False, True):
+        T_ = f"self.build.{'benchmarks' if bm_ else 'tests'}[0]"
+        R = 'list(result)'
+        A = TLIKE(T_ + '.exe')
+        ens = [f"(implies({A}, {R}[0] is {TGT(T_ + '.exe')}) if len({R}) > 0 else not {A})"]
+        cnt = f"(1 if {A} else 0)"
+        if na_:
+            B = TLIKE(T_ + '.cmd_args[0]')
+            cnt += f" + (1 if {B} else 0)"
+            ens += [f"(implies({A} and {B}, {R}[1] is {TGT(T_ + '.cmd_args[0]')}) if len({R}) > 1 else not ({A} and {B}))",
+                    f"(implies(not {A} and {B}, {R}[0] is {TGT(T_ + '.cmd_args[0]')}) if len({R}) > 0 else not {B})"]
+        if nd_:
+            cnt += " + 1"
+            ens += [f"({R}[-1] is {TGT(T_ + '.depends[0]')}) if len({R}) > 0 else False"]
+        ens += [f"len({R}) == {cnt}"]
+        REG.contract('C04', BK, 'Backend.get_testlike_targets', variant=f"{'benchmark' if bm_ else 'test'}-a{na_}-d{nd_}",
+                     params={'self': BackS, 'benchmark': Const(bm_)},
+                     ensures=ens, raises={'AssertionError': 'True'}, exact_raises=False,
+                     yields=Obj, opaque_attrs={'target': Obj}, floor=1,
+                     note=f"one {'benchmark' if bm_ else 'test'} with {na_} argument(s) and {nd_} depends: entr{'y' if nd_ == 1 else 'ies'}: the prerequisites are, in order, the target behind the program (whatever kind of build target it is — an executable, a jar, a custom target or one output of it), behind each argument that is a target, and behind each depends: entry")
+REG.contract('C04', 'mesonbuild/build.py', 'Build.get_tests', inline=True, trusted=True, note='return self.tests; inlined')
+REG.contract('C04', 'mesonbuild/build.py', 'Build.get_benchmarks', inline=True, trusted=True, note='return self.benchmarks; inlined')
